@@ -847,12 +847,14 @@ def inline_new_helpers(tree, modname):
                     lmap = {}
                     # a helper local named like the variable the call's result is assigned to may keep its name: the variable is
                     # overwritten by this statement anyway (unless the call's arguments read it)
-                    own_target = None
-                    if isinstance(st, ast.Assign) and len(st.targets) == 1 and isinstance(st.targets[0], ast.Name):
-                        if not any(isinstance(x, ast.Name) and x.id == st.targets[0].id for a_ in list(val.args) + [k.value for k in val.keywords] for x in ast.walk(a_)):
-                            own_target = st.targets[0].id
+                    own_targets = set()
+                    if isinstance(st, ast.Assign) and len(st.targets) == 1:
+                        tnames = [st.targets[0]] if isinstance(st.targets[0], ast.Name) else (
+                            list(st.targets[0].elts) if isinstance(st.targets[0], ast.Tuple) and all(isinstance(e_, ast.Name) for e_ in st.targets[0].elts) else [])
+                        argnames = {x.id for a_ in list(val.args) + [k.value for k in val.keywords] for x in ast.walk(a_) if isinstance(x, ast.Name)}
+                        own_targets = {t_.id for t_ in tnames if t_.id not in argnames}
                     for l_ in hlocals:
-                        lmap[l_] = l_ if (l_ not in names_in_caller or l_ == own_target) else "%s_h%d" % (l_, counter[0])
+                        lmap[l_] = l_ if (l_ not in names_in_caller or l_ in own_targets) else "%s_h%d" % (l_, counter[0])
                         names_in_caller.add(lmap[l_])
 
                     class Sub(ast.NodeTransformer):
@@ -874,7 +876,8 @@ def inline_new_helpers(tree, modname):
                         elif isinstance(st, ast.Expr):
                             conv, _ = _single_exit(body, None)
                             new_stmts = pre + conv
-                        elif isinstance(st, ast.Assign) and len(st.targets) == 1 and isinstance(st.targets[0], ast.Name):
+                        elif isinstance(st, ast.Assign) and len(st.targets) == 1 and (isinstance(st.targets[0], ast.Name) or (
+                                isinstance(st.targets[0], ast.Tuple) and all(isinstance(e_, ast.Name) for e_ in st.targets[0].elts))):
                             conv, exits = _single_exit(body, st.targets[0])
                             if not exits:
                                 conv.append(ast.Assign(targets=[copy.deepcopy(st.targets[0])], value=ast.Constant(value=None)))
